@@ -183,6 +183,8 @@ def from_abs(a, spelling='native'):
         if spelling == 'wfloat':
             return L.ft.Number(n / d)
         return n if d == 1 else n / d
+    if t == 'float':
+        return float(a['v'])
     if t == 'txt':
         s = text_of(a)
         return L.ft.Text(s) if spelling.startswith('w') else s
